@@ -95,9 +95,14 @@ CLAIMED["C05"] = dict(
          "task runs, spawns or drops is the leaf set of a legal split tree of its range; whole loops visit every index exactly once and "
          "nothing outside; simple_partitioner chunks have size in [ceil(g/2), g]; strided index map. Tie: generated constants and selection "
          "flags, white-box differential on the real split constructors and range_vector, the real start_for/partitioners on a scripted "
-         "runtime replayed task by task on the model, real-thread runs with per-element monitors.",
-    note="Trusted: Lean kernel, standard axioms, harness/c05 (scripted r1 mock + real runs), sampled correspondence. parallel_for_each feeder "
-         "and parallel_invoke are covered by implementation monitors only; termination proved for simple_partitioner on blocked_range.",
+         "runtime replayed task by task on the model, real-thread runs with per-element monitors. All four partitioners terminate (explicit "
+         "fuel) on blocked_range. parallel_for_each (random-access / forward / input iterators, feeder) and parallel_invoke (any number of "
+         "functions) as a small-step task system: body calls = input + fed items exactly once, the wait covers fed work transitively, blocks "
+         "tile the input in order with sizes in [1, max_block_size], input iterators advance sequentially, item copies live across their body "
+         "call and die once; invoke tree shape. Constants / dispatch tables regenerated from the headers; real header code on a second "
+         "scripted mock validated event by event.",
+    note="Trusted: Lean kernel, standard axioms, harness/c05 (two scripted r1 mocks + real runs), sampled correspondence. No cancellation / "
+         "exceptions in the for_each / invoke model; termination for 2d/3d/nd ranges by observation.",
     technique="Lean 4 proof (split-tree refinement under a universally quantified steal environment; exact float model) + generated rules + differential",
     design="§3 C05, §4 F5")
 CLAIMED["C20"] = dict(
@@ -150,11 +155,17 @@ CLAIMED["C01"] = dict(
          "respects FIFO; task_stream lanes conserve tasks and keep the population bit truthful; fold_tree releases the wait node exactly "
          "once after every leaf; reference vertices never underflow and root 0 implies global quiescence. Tie: generated constants, E-SHIM on "
          "the whole instrumented runtime with white-box component scenarios whose head/tail/lock/proxy/mailbox traces replay access by access "
-         "on the models (random + bounded-preemption DFS), end-to-end task programs with exactly-once and wait-covers-all monitors.",
-    note="Trusted: Lean kernel, standard axioms, E-SHIM runtime, harness/c01, sampled correspondence. Sequentially consistent interleavings "
-         "only (no TSO layer: a relaxed demotion of the --tail RMW is reported as broken correspondence without a failing input). The "
-         "composition of the containers into the whole dispatcher is covered by end-to-end monitors, not by a theorem.",
-    technique="Lean 4 proof (multiset-conservation invariants over atomic-access-level protocol models) + E-SHIM trace replay + DFS",
+         "on the models (random + bounded-preemption DFS), end-to-end task programs with exactly-once and wait-covers-all monitors. The whole "
+         "dispatcher is a task-level composition model (Dispatch: any arenas / slots / threads, the seven look-up sources in the order "
+         "regenerated from task_dispatcher.h, spawn / enqueue / mail / bypass / cancel / nested waits): every unit is executed-or-cancelled at "
+         "most once and exactly once when its group's wait has returned, a pending unit is in exactly one place, a wait covers all work "
+         "submitted transitively, whichever thread takes a unit; the container interface is discharged by the component theorems; real runs "
+         "are validated event by event against it. The owner/thief last-task arbitration is also proved under x86-TSO store buffers (1 owner "
+         "x 1 thief), under fencesOK over the memory orders regenerated from the trace, with necessity witnesses for each fence.",
+    note="Trusted: Lean kernel, standard axioms, E-SHIM runtime, harness/c01 (incl. --wrap interposition of the r1 entry points), sampled "
+         "correspondence. TSO layer only for the 1x1x1 last-task window (x86 mapping); everything else sequentially consistent. Dispatch "
+         "containers are bags; release timing is observed at task return or counter zero; resume tasks / flow-graph bodies not exercised.",
+    technique="Lean 4 proof (conservation invariants over access-level protocol models; counting invariants over a composition model; finite TSO closure by decide +kernel) + E-SHIM trace replay / validation + DFS",
     design="§3 C01")
 CLAIMED["C19"] = dict(
     text="Lean 4 theorems for any number of callers (<= the generated reference bound), all schedules and throw oracles: collaborative_call_once "
